@@ -311,7 +311,9 @@ Definition pick_up (c : N -> Z) (b : sndbuf) (pred : N -> option N) (flow : N) :
   | PickPV => UpPV
   end.
 
+(* an empty range (`range.is_empty()`, i.e. end <= start: the range of a FIN-only frame) is ignored *)
 Definition on_data_acked (b : sndbuf) (s e : N) : option sndbuf :=
+  if e <=? s then Some b else
   match ack_rcvd (st b) s e with
   | None => None
   | Some m1 =>
@@ -322,6 +324,7 @@ Definition on_data_acked (b : sndbuf) (s e : N) : option sndbuf :=
   end.
 
 Definition may_loss_data (b : sndbuf) (s e : N) : option sndbuf :=
+  if e <=? s then Some b else
   match may_loss (st b) s e with
   | None => None
   | Some m => Some (mksb (base b) (retained b) (max_data b) m)
@@ -350,8 +353,8 @@ Inductive sb_out :=
 
 Definition pred_of (cap blk : N) (off : N) : option N := if off <? blk then Some cap else None.
 
-(* the harness refuses (reports PV without calling the Rust): a zero capacity (no caller's
-   predicate returns Some(0)) and inverted ranges *)
+(* the harness refuses (reports PV without calling the Rust) a zero capacity: no caller's
+   predicate returns Some(0) *)
 Definition sb_exec (c : N -> Z) (b : sndbuf) (o : sb_op) : option sndbuf * sb_out :=
   let lift (r : option sndbuf) := match r with Some b' => (Some b', OUnit) | None => (None, OPV) end in
   match o with
@@ -364,8 +367,8 @@ Definition sb_exec (c : N -> Z) (b : sndbuf) (o : sb_op) : option sndbuf * sb_ou
            | UpErr w f g => (Some b, OSig w f g)
            | UpPV => (None, OPV)
            end
-  | SbAck s e => if e <? s then (None, OPV) else lift (on_data_acked b s e)
-  | SbLoss s e => if e <? s then (None, OPV) else lift (may_loss_data b s e)
+  | SbAck s e => lift (on_data_acked b s e)
+  | SbLoss s e => lift (may_loss_data b s e)
   | SbResend => (Some (resend b), OUnit)
   | SbForget => (Some (forget_sent_state b), OUnit)
   end.
